@@ -5,7 +5,8 @@ run) on stub caption sets with two languages.  The first language takes every se
 N captions over five timespans - (0, 2s), (2s, 4s), (2s + 400us, 4s: equal only after rounding to milliseconds),
 (2s, 5s: same start, other end), (4s, 5s: same end, other start) -
 so that runs of every length sit at every position, including a first run that starts at zero;
-the second language holds a fixed other sequence.  Captions have one node, text-break-text, or text with a trailing break.  The folded
+the second language holds a fixed other sequence.  Captions have one node, text-break-text, or text with a trailing break; in every other sequence each
+caption is positioned, later captions higher on the screen.  The folded
 result is compared with the definition:
 
   maximal runs of CONSECUTIVE captions with identical (start, end) become one caption carrying
@@ -27,10 +28,12 @@ SPANS = {"A": (0, 2 * S), "B": (2 * S, 4 * S), "E": (2 * S + 400, 4 * S), "D": (
 class World:
     def __init__(self, ctx):
         self.F = Folder(ctx.index)
-        self.F.object_classes = ("Caption", "CaptionList", "CaptionNode")
+        self.F.object_classes = ("Caption", "CaptionList", "CaptionNode", "Layout", "Point", "Size", "Alignment")
         self.fn = ctx.index.get_function(BASE, "merge_concurrent_captions")
         self.merge = ctx.index.get_function(BASE, "merge")
         self.n = 0
+        self.k = 0
+        self.with_layout = False
 
     def ev(self, text, **local):
         return self.F.eval_in("pycaption.base", ast.parse(text, mode="eval").body, local)
@@ -41,7 +44,16 @@ class World:
             nodes += [self.ev("CaptionNode.create_break()")]
         if two == 1:
             nodes += [self.ev("CaptionNode.create_text(t)", t=f"{tag}'")]
-        return self.ev("Caption(s, e, nodes, style={'tag': t})", s=SPANS[span][0], e=SPANS[span][1], nodes=nodes, t=tag)
+        lay = None
+        if self.with_layout:
+            # captions listed later sit HIGHER on the screen: a merge that orders by position shows
+            self.k += 1
+            g = "pycaption.geometry"
+            y = self.F.eval_in(g, ast.parse("Size(v, UnitEnum.PERCENT)", mode="eval").body, {"v": max(5, 90 - 7 * (self.k % 12))})
+            x = self.F.eval_in(g, ast.parse("Size(10, UnitEnum.PERCENT)", mode="eval").body, {})
+            lay = self.F.eval_in(g, ast.parse("Layout(origin=Point(x, y))", mode="eval").body, {"x": x, "y": y})
+        return self.ev("Caption(s, e, nodes, style={'tag': t}, layout_info=lay)", s=SPANS[span][0], e=SPANS[span][1],
+                       nodes=nodes, t=tag, lay=lay)
 
     def run(self, langs):
         """langs: {lang: [caption stubs]} -> {lang: [(start, end, [node descriptions], style)]}"""
@@ -123,6 +135,7 @@ def _explore(ctx, max_len):
             n_seq += 1
             # node pattern by position: text / text-break-text / text-break
             seq = [(sp, f"t{i}", i % 3) for i, sp in enumerate(spans)]
+            W.with_layout = n_seq % 2 == 0          # every other sequence: all captions positioned
             langs = {"en-US": [W.caption(*c) for c in seq], "fr": [W.caption(*c) for c in other]}
             case = {"timespans": [SPANS[s] for s in spans]}
             try:
@@ -152,3 +165,60 @@ def _explore(ctx, max_len):
             elif second != first:
                 bad["R-IDEMPOTENT"].append(dict(case, once=first["en-US"], twice=second.get("en-US")))
     return W, bad, n_seq
+
+
+# ---------------------------------------------------------------------------- adjust_caption_timing (C19 clause 1)
+def retime(ctx, report, clause="1"):
+    """`CaptionSet.adjust_caption_timing` folded on a grid of skews and offsets: every start and end t becomes
+    t*skew+offset (the same float expression, so equality is exact), captions whose new start is negative are dropped -
+    exactly those -, the others keep their order and their nodes, every language is adjusted"""
+    F = Folder(ctx.index)
+    F.object_classes = ("Caption", "CaptionList", "CaptionNode", "CaptionSet")
+    fn = ctx.index.get_function(BASE, "CaptionSet.adjust_caption_timing")
+    report.covered(fn)
+
+    def ev(text, **local):
+        return F.eval_in("pycaption.base", ast.parse(text, mode="eval").body, local)
+    times = [(0, 2 * S), (2 * S, 4 * S), (3600 * S, 3602500000), (86399 * S, 86400 * S - 1)]
+    skews = [1, 1.0, 1.1, 0.5, 4.0, 1.001, 1000 / 1001, 0.9995, 1.0004, 2]
+    offsets = [0, 5 * S, -1, -3 * S, -3601 * S, 0.5, -7200 * S]
+    bad_map, bad_drop, bad_keep = [], [], []
+    n = 0
+    for skew in skews:
+        for off in offsets:
+            n += 1
+            langs = {}
+            for lang in ("en-US", "fr"):
+                caps = []
+                for i, (a, b) in enumerate(times if lang == "en-US" else times[1:]):
+                    node = ev("CaptionNode.create_text(t)", t=f"{lang}{i}")
+                    caps.append(ev("Caption(a, b, [n])", a=a, b=b, n=node))
+                langs[lang] = ev("CaptionList(c)", c=caps)
+            cs = ev("CaptionSet(d)", d=langs)
+            try:
+                F.call_function(fn, [], {"offset": off, "rate_skew": skew}, self_value=cs)
+            except FoldRaise as e:
+                bad_map.append({"skew": skew, "offset": off, "raises": e.exc_name or str(e)})
+                continue
+            except AnalysisError as e:
+                raise AnalysisError(f"adjust_caption_timing cannot be folded: {e}")
+            for lang in ("en-US", "fr"):
+                src_t = times if lang == "en-US" else times[1:]
+                want = [(a * skew + off, b * skew + off, f"{lang}{i}") for i, (a, b) in enumerate(src_t)]
+                keep = [w for w in want if w[0] >= 0]
+                lst = cs.attrs["_captions"].get(lang)
+                lst = lst.attrs["__list__"] if isinstance(lst, Stub) else lst
+                got = [(c.attrs["start"], c.attrs["end"], "".join(x.attrs.get("content") or "" for x in c.attrs["nodes"])) for c in lst]
+                case = {"skew": skew, "offset": off, "language": lang}
+                if [g[2] for g in got] != [k[2] for k in keep]:
+                    (bad_drop if set(g[2] for g in got) != set(k[2] for k in keep) else bad_keep).append(
+                        dict(case, kept=[g[2] for g in got], required=[k[2] for k in keep]))
+                elif [(g[0], g[1]) for g in got] != [(k[0], k[1]) for k in keep]:
+                    bad_map.append(dict(case, times=[(g[0], g[1]) for g in got][:3], required=[(k[0], k[1]) for k in keep][:3]))
+    report.count("retime_configurations_folded", n)
+    report.check(not bad_map, "R-GRID", fn, "every start and end t becomes t*skew+offset, in every language",
+                 {"configurations": n, "skews": skews, "mismatches": bad_map[:2]}, clause)
+    report.check(not bad_drop, "R-GRID", fn, "exactly the captions whose new start is negative are dropped",
+                 {"configurations": n, "mismatches": bad_drop[:2]}, clause)
+    report.check(not bad_keep, "R-GRID", fn, "surviving captions keep their order and their nodes",
+                 {"configurations": n, "mismatches": bad_keep[:2]}, clause)
